@@ -171,6 +171,27 @@ async fn insert_requires_private_compatible() -> Result<(), String> {
   if !s.exists(&id).await.unwrap_or(false) || s.count().await != 1 { return Err("inserted key not present".into()); }
   let sig = s.sign(&id, b"msg", &public).await.map_err(|e| format!("sign with inserted key: {e}"))?;
   if !verifies(b"msg", &sig, &public) { return Err("inserted key's signature does not verify under its public JWK".into()); }
+  // two DIFFERENT keys carrying the same kid (and the same key inserted twice) are separate entries: nothing is overwritten
+  let mut a = good.clone(); a.set_kid("shared-kid");
+  let mut b = {
+    let mut p = JwkParamsOkp::new();
+    p.crv = "Ed25519".into();
+    // second RFC 8032 test key (TEST 2)
+    p.x = "PUAXw-hDiVqStwqnTRt-vJyYLM8uxJaMwM1V8Sr0Zgw".into();
+    p.d = Some("TM0Imyj_ltqdtsNG7BFOD1uKMZ81q6Yk2oz27U-4pvs".into());
+    let mut j = Jwk::from_params(p); j.set_alg("EdDSA"); j
+  };
+  b.set_kid("shared-kid");
+  let (pa, pb) = (a.to_public().unwrap(), b.to_public().unwrap());
+  let ida = s.insert(a.clone()).await.map_err(|e| format!("insert a: {e}"))?;
+  let idb = s.insert(b.clone()).await.map_err(|e| format!("insert b: {e}"))?;
+  let ida2 = s.insert(a.clone()).await.map_err(|e| format!("insert a again: {e}"))?;
+  if ida == idb || ida == ida2 || idb == ida2 || ida == id { return Err("inserts of keys sharing a kid were given the same key id".into()); }
+  if s.count().await != 4 { return Err(format!("count {} after 4 successful inserts", s.count().await)); }
+  for (k, own, other) in [(&ida, &pa, &pb), (&idb, &pb, &pa), (&ida2, &pa, &pb)] {
+    let sig = s.sign(k, b"m", own).await.map_err(|e| format!("sign: {e}"))?;
+    if !verifies(b"m", &sig, own) || verifies(b"m", &sig, other) { return Err("after inserting keys that share a kid, a key id signs with another key".into()); }
+  }
   Ok(())
 }
 
